@@ -10,6 +10,7 @@
   capacity `slack`), `dirtmake.Bytes`, `append`.  Racing goroutines are runtime behaviour.
 -/
 import Verif.Lemmas.MemDecode
+import Verif.Lemmas.MemDecodeRun
 namespace Verif.C16
 open Verif Verif.Mem Verif.Heap
 
@@ -84,11 +85,67 @@ theorem decodes_independent (cfg1 cfg2 : DecCfg) (c : SpanCache) (h : Heap) (b1 
     (hr1 : binReadBinary cfg1 c h b1 = (.ok (s1, l1), c1, h1))
     (hr2 : binReadBinary cfg2 c1 h1 b2 = (.ok (s2, l2), c2, h2)) :
     s2.CapDisjoint s1 ∧ s2.CapDisjoint b1 ∧ s2.CapDisjoint b2 ∧ h2.view s1 = h1.view s1 := by
-  obtain ⟨_, _, _, p4, _, _, _, p8, p9, p10, _, _, _, ⟨x1, hx1, _, _⟩⟩ :=
+  obtain ⟨_, _, _, p4, _, _, _, p8, p9, p10, _, _, _, ⟨x1, hx1, _, _⟩, _⟩ :=
     binReadBinary_ok cfg1 c h b1 s1 l1 c1 h1 hc hin1 hb1 hr1
   obtain ⟨_, _, _, q4, _, _, q7, q8, _, _, q11, _, _, _⟩ := binReadBinary_ok cfg2 c1 h1 b2 s2 l2 c2 h2 p10 hin2 hb2 hr2
   refine ⟨(q8 s1 p9).1, (q8 b1 (p8 b1 hb1).2).1, q7, ?_⟩
   exact view_of_onlyWrote q11 (obj?_lt h1 _ x1 hx1) p4 (q8 s1 p9).1 q4
+
+/-! ## runs of decodes -/
+
+/-- run_values_stable: along EVERY run — any number of further decodes (any configuration; enough of them
+    wrap the span of any size class), failing decodes, user writes anywhere in the capacity region of any
+    input buffer, user writes into and appends to any OTHER result, environment steps, new input buffers —
+    a value `A` that has been returned stays one of the results and keeps exactly its bytes; and the run
+    invariant (`DInv`: cache invariant, reserve lines, disjointness) is kept, so this holds from every
+    later state on as well. -/
+theorem run_values_stable {A : Slice} {a b : DSt} (hi : DInv a) (hA : A ∈ a.res) (t : DecSteps A a b) :
+    DInv b ∧ A ∈ b.res ∧ b.h.view A = a.h.view A :=
+  t.ok hi hA
+
+/-- run_results_disjoint: at every point of every run all results are pairwise disjoint (capacity
+    regions) and disjoint from every input buffer the user holds. -/
+theorem run_results_disjoint {A : Slice} {a b : DSt} (hi : DInv a) (hA : A ∈ a.res) (t : DecSteps A a b) :
+    (∀ x ∈ b.res, ∀ y ∈ b.res, x ≠ y → x.CapDisjoint y) ∧ (∀ x ∈ b.res, ∀ i ∈ b.ins, x.CapDisjoint i) :=
+  ⟨(t.ok hi hA).1.rr, (t.ok hi hA).1.ri⟩
+
+/-- run_from_decode: the two statements chained from the decode that produced the value: whatever state
+    satisfying the run invariant the decode started in, its result is stable and disjoint for ever after. -/
+theorem run_from_decode (st : DSt) (cfg : DecCfg) (buf s : Slice) (l : Nat) (c' : SpanCache) (h' : Heap)
+    (hi : DInv st) (hin : InputOK st.h buf) (hb : Below st.c st.h buf)
+    (hrun : binReadBinary cfg st.c st.h buf = (.ok (s, l), c', h')) {b : DSt}
+    (t : DecSteps s ⟨c', h', st.ins, s :: st.res⟩ b) :
+    b.h.view s = st.h.bytes buf.obj (buf.off + 4) (l - 4) ∧
+    (∀ y ∈ b.res, s ≠ y → s.CapDisjoint y) ∧ (∀ i ∈ b.ins, s.CapDisjoint i) := by
+  -- the decode itself is a step of a run that watches nothing yet
+  have h0 : DInv ⟨c', h', st.ins, s :: st.res⟩ := by
+    obtain ⟨_, _, _, q4, _, _, _, q8, q9, q10, _, _, _, ⟨x, hx, hxg, hxb⟩, qk⟩ :=
+      binReadBinary_ok cfg st.c st.h buf s l c' h' hi.cache hin hb hrun
+    refine ⟨q10, fun f hf => ?_, fun x1 h1 x2 h2 hne => ?_, fun x1 h1 i hi' => ?_⟩
+    · rcases hf with hf | hf
+      · exact ⟨(hi.ok f (Or.inl hf)).1.of_keeps qk, (q8 f (hi.ok f (Or.inl hf)).2).2⟩
+      · rcases List.mem_cons.mp hf with e | hf
+        · rw [e]; exact ⟨⟨q4, x, hx, hxb, by rw [hxg]; decide⟩, q9⟩
+        · exact ⟨(hi.ok f (Or.inr hf)).1.of_keeps qk, (q8 f (hi.ok f (Or.inr hf)).2).2⟩
+    · rcases List.mem_cons.mp h1 with e1 | m1
+      · rcases List.mem_cons.mp h2 with e2 | m2
+        · exact absurd (e1.trans e2.symm) hne
+        · rw [e1]; exact (q8 x2 (hi.ok x2 (Or.inr m2)).2).1
+      · rcases List.mem_cons.mp h2 with e2 | m2
+        · rw [e2]; exact CapDisjoint.symm (q8 x1 (hi.ok x1 (Or.inr m1)).2).1
+        · exact hi.rr x1 m1 x2 m2 hne
+    · rcases List.mem_cons.mp h1 with e1 | m1
+      · rw [e1]; exact (q8 i (hi.ok i (Or.inl hi')).2).1
+      · exact hi.ri x1 m1 i hi'
+  obtain ⟨i1, a1, v1⟩ := t.ok h0 (List.mem_cons_self)
+  have hval := (read_fresh cfg st.c st.h buf s l c' h' hi.cache hin hb hrun).2.2.1
+  exact ⟨v1.trans hval, fun y hy hne => i1.rr s a1 y hy hne, fun i hi' => i1.ri s a1 i hi'⟩
+
+/-- the run invariant holds right after `spanCache = span.NewSpanCache(Facts.spanCacheBytes)` with any input
+    buffers that exist and have not been recycled -/
+theorem run_init (h : Heap) (ins : List Slice) (hins : ∀ f ∈ ins, InputOK h f) :
+    DInv ⟨(SpanCache.new h Facts.spanCacheBytes).1, (SpanCache.new h Facts.spanCacheBytes).2, ins, []⟩ :=
+  DInv.init h Facts.spanCacheBytes spanCacheBytes_lt ins hins
 
 /-- flag_irrelevant: with the span cache enabled or disabled (and whatever the contention flag and the
     runtime's spare capacity), the decoder fails with the same error, or succeeds with the same consumed
